@@ -5,7 +5,8 @@
 From Coq Require Import ZArith List Bool Lia.
 From Tickit Require Import RectDefs RBDefs RBSpec RBLemmas RBSpanProofs RBAbsLemmas RBInv RBOpProofs RBProofs RBProps
                            RBTheorems Gen_Linechars RBGlyphs RBFlushDefs RBFlushSpec RBFlushProofs RBWidth RBFlushCols
-                           RBFlushReach RBTermSim RBFlushShown.
+                           RBFlushReach RBTermSim RBFlushShown RBPenLemmas.
+From Tickit Require PenProofs.
 Import ListNotations.
 Local Open Scope Z_scope.
 
@@ -356,10 +357,10 @@ Lemma list_eqb_refl : forall l : list Z, list_eqb Z.eqb l l = true.
 Proof. induction l as [|x l IH]; cbn [list_eqb]; [reflexivity|]. now rewrite Z.eqb_refl, IH. Qed.
 
 Lemma pen_equiv_canon_l : forall p, pen_equiv (canon_pen p) p = true.
-Proof. intros [a b c d]. unfold pen_equiv, attr_equiv, canon_pen. cbn. now rewrite !Z.eqb_refl. Qed.
-
-Lemma pen_equiv_refl : forall p, pen_equiv p p = true.
-Proof. intros p. unfold pen_equiv, attr_equiv. now rewrite !Z.eqb_refl. Qed.
+Proof.
+  intros p. unfold pen_equiv. apply forallb_forall. intros a Ha. apply PenProofs.value_eqb_eq.
+  destruct a; reflexivity.
+Qed.
 
 Lemma tcell_eqb_refl : forall c, tcell_eqb c c = true.
 Proof. intros [t p]. unfold tcell_eqb. cbn [t_text t_pen]. now rewrite list_eqb_refl, pen_equiv_refl. Qed.
